@@ -184,10 +184,10 @@ inductive Gen where
 deriving DecidableEq, Repr, Inhabited
 
 /-- columns/protein_annotations.py `MQ_PROTEIN_ANNOTATION_HEADERS` -/
-def mqAnnotationHeaders : List String := ["Protein names", "Gene names", "Fasta headers"]
+def mqAnnotationHeaders : List String := PgFdr.Generated.columns_protein_annotations_MQ_PROTEIN_ANNOTATION_HEADERS
 /-- columns/diann_protein_annotations.py `DIANN_PROTEIN_ANNOTATION_HEADERS` -/
 def diannAnnotationHeaders : List String :=
-  ["Protein.Group", "Protein.Names", "Genes", "First.Protein.Description"]
+  PgFdr.Generated.columns_diann_protein_annotations_DIANN_PROTEIN_ANNOTATION_HEADERS
 
 /-- columns/sum_and_ibaq.py `get_silac_channels` -/
 def silacChannels (s : Int) : Except Err (List String) :=
